@@ -271,6 +271,10 @@ func (c16) Run(c *fw.Ctx) {
 		c.Violationf("panic", det, "%s panicked (fault %s, archive %s, window %s)", cmdName, fault, archSel, window)
 		return
 	}
+	if res.Exit == -100 {
+		c.Inconclusive("the harness could not execute the binary: " + truncStr(res.Stderr, 200))
+		return
+	}
 	if res.Exit < 0 || res.Exit >= 126 {
 		c.Violationf("abnormal-termination", det, "%s terminated abnormally (exit %d)", cmdName, res.Exit)
 		return
